@@ -193,10 +193,10 @@ def finish (o4 : Order) (budget : Nat) (st : GState) : List Grp :=
 
 /-- `groupByOriginAndSize(pkgs, budget)`; the four map iteration orders are parameters -/
 def groupByOriginAndSize (pkgs : List LPkg) (budget : Int) (o1 o2 o3 o4 : Order) : Res (List Grp) :=
-  let st2 := phase2 o1 (phase1 pkgs)
-  (phase4 o3 (phase3 o2 st2) st2).bind fun st4 =>
-    if budget < 0 then .panic                         -- make([]*group, 0, budget)
-    else .ok (finish o4 budget.toNat st4)
+  if budget < 0 then .err                             -- "invalid layering budget" (was: panic in make)
+  else
+    let st2 := phase2 o1 (phase1 pkgs)
+    (phase4 o3 (phase3 o2 st2) st2).bind fun st4 => .ok (finish o4 budget.toNat st4)
 
 /-! ## splitLayers -/
 
